@@ -39,6 +39,8 @@ type taskRec struct {
 	accepted bool // Do returned, or TryDo returned true
 	tryRes   bool
 	submitAt int
+	returnedStep int // step at which the submission was first seen returned (-1: not yet)
+	cancelStep   int // step at which its own context was cancelled (-1: never)
 	ctxDoneEver bool // the task's or the pool's context was done at some point (monitor bookkeeping)
 }
 
@@ -59,6 +61,10 @@ type runState struct {
 	panics  int32
 	sc      scenario
 	msg     string
+	msgs    []string
+	step    int
+	startStep    int // first step at which Start was issued (-1: never)
+	poolDoneStep int // first step at which the pool context was cancelled (stop / cancelparent issued); -1 = never
 	stopReturned bool
 	stopCalled   bool
 	poolDone     bool
@@ -66,9 +72,17 @@ type runState struct {
 }
 
 func (r *runState) fail(format string, args ...interface{}) {
+	m := fmt.Sprintf(format, args...)
 	if r.msg == "" {
-		r.msg = fmt.Sprintf(format, args...)
+		r.msg = m
 	}
+	tag := strings.SplitN(m, " ", 2)[0]
+	for _, x := range r.msgs {
+		if strings.HasPrefix(x, tag+" ") {
+			return // one message per property tag
+		}
+	}
+	r.msgs = append(r.msgs, m)
 }
 
 func countWorkers() int {
@@ -139,7 +153,7 @@ func (r *runState) observe(step int) {
 
 func (r *runState) submit(kind, ctxKind string) {
 	id := len(r.tasks)
-	tr := &taskRec{id: id, kind: kind, ctxKind: ctxKind, gate: make(chan struct{})}
+	tr := &taskRec{id: id, kind: kind, ctxKind: ctxKind, gate: make(chan struct{}), returnedStep: -1, cancelStep: -1, submitAt: r.step}
 	switch ctxKind {
 	case "own":
 		tr.ctx, tr.cancel = context.WithCancel(context.Background())
@@ -179,16 +193,25 @@ func (r *runState) runScenario() {
 	fmt.Fprintf(r.tr, "reset pool %d %d %d\n", sc.nworker, sc.limit, sc.lifetime)
 	r.pool = workerpool.NewPool(parent, workerpool.Option{NumberWorker: sc.nworker, ExpandableLimit: int32(sc.limit),
 		ExpandedLifetime: time.Duration(sc.lifetime) * unit, DisableAutoStart: true})
+	r.poolDoneStep = -1
+	r.startStep = -1
 	for i, a := range sc.actions {
+		r.step = i
 		f := strings.Fields(a)
 		fmt.Fprintf(r.tr, "act %s\n", a)
 		switch f[0] {
 		case "do", "try":
 			r.submit(f[0], f[1])
 		case "start":
+			if r.startStep < 0 {
+				r.startStep = i
+			}
 			go func() { r.pool.Start(); r.rets = append(r.rets, "start") }()
 		case "stop":
 			r.stopCalled = true
+			if r.poolDoneStep < 0 {
+				r.poolDoneStep = i
+			}
 			go func() {
 				defer func() {
 					if p := recover(); p != nil {
@@ -206,7 +229,13 @@ func (r *runState) runScenario() {
 		case "canceltask":
 			u, _ := strconv.Atoi(f[1])
 			r.tasks[u].cancel()
+			if r.tasks[u].cancelStep < 0 {
+				r.tasks[u].cancelStep = i
+			}
 		case "cancelparent":
+			if r.poolDoneStep < 0 {
+				r.poolDoneStep = i
+			}
 			r.pcancel()
 			r.poolDone = true
 		case "advance":
@@ -214,6 +243,11 @@ func (r *runState) runScenario() {
 			time.Sleep(time.Duration(d) * unit)
 		}
 		r.observe(i)
+		for _, t := range r.tasks {
+			if t.returned && t.returnedStep < 0 {
+				t.returnedStep = i
+			}
+		}
 		// C17: TryDo never blocks — it must have returned by the next quiescent point
 		if f[0] == "try" {
 			if t := r.tasks[len(r.tasks)-1]; !t.returned && atomic.LoadInt32(&r.panics) == 0 {
@@ -250,6 +284,15 @@ func (r *runState) runScenario() {
 				kind = "err"
 				if atomic.LoadInt32(&t.execs) != 0 {
 					r.fail("C04 task %d received a context-error result but was executed", t.id)
+				}
+				ctxDoneBy := func(step int) bool {
+					return (r.poolDoneStep >= 0 && r.poolDoneStep <= step) || (t.cancelStep >= 0 && t.cancelStep <= step)
+				}
+				// the pool was running when the pool context was cancelled (or is still running): every task accepted before must run
+				started := r.startStep >= 0 && (r.poolDoneStep < 0 || r.startStep < r.poolDoneStep)
+				if started && t.accepted && t.returnedStep >= 0 && !ctxDoneBy(t.returnedStep) {
+					r.fail("C04 task %d was accepted (its %s returned at step %d, before any context was cancelled) but was never executed and received a context error", t.id, t.kind, t.returnedStep)
+					r.fail("C08 task %d was accepted before Stop was called but Stop returned without it having been executed (it got a context error instead)", t.id)
 				}
 			} else {
 				kind = "val"
@@ -374,8 +417,10 @@ func TestScenarios(t *testing.T) {
 		mon.Flush() // a crash of the binary (panic in a worker goroutine) leaves the scenario as replay
 		r := &runState{t: t, tr: tr, sc: sc}
 		synctest.Test(t, func(t *testing.T) { r.runScenario() })
-		if r.msg != "" {
-			fmt.Fprintf(mon, "MON %d FAIL %s\n", run, r.msg)
+		if len(r.msgs) > 0 {
+			for _, m := range r.msgs {
+				fmt.Fprintf(mon, "MON %d FAIL %s\n", run, m)
+			}
 		} else {
 			fmt.Fprintf(mon, "MON %d ok actions=%d tasks=%d maxrunning=%d\n", run, len(sc.actions), len(r.tasks), r.maxRunning)
 		}
